@@ -104,8 +104,15 @@ func runMergeCase(shape string, books [][]mergeRow, order []string) string {
 	for b, rows := range books {
 		var grid [][]string
 		grid = append(grid, hdr...)
-		for _, r := range rows {
+		if b > 0 && (b+len(rows))%2 == 0 {
+			// a secondary book whose first data line is blank (a blank line states nothing, wherever it stands)
+			grid = append(grid, []string{"", ""})
+		}
+		for k, r := range rows {
 			grid = append(grid, []string{r.id, r.name})
+			if b == 0 && k == 0 && len(rows)%2 == 1 {
+				grid = append(grid, []string{"", ""}) // … and one in the middle of the primary
+			}
 		}
 		bk := bookSpec{Name: "Zone" + strconv.Itoa(b+1), Sheets: []sheetSpec{{Name: "Conf", Rows: grid}}}
 		if b == 1 && len(books) >= 3 {
